@@ -3,6 +3,8 @@ package main
 import (
 	"fmt"
 	"go/ast"
+	"go/constant"
+	"math/big"
 	"go/token"
 	"go/types"
 	"strings"
@@ -19,6 +21,12 @@ func newFuncVC(P *Program, fn *ssa.Function, c *FuncContract) *FuncVC {
 	fv.name = shortFuncName(fn)
 	if c != nil && c.AbsFloat {
 		fv.e.setAbsFloat()
+	}
+	if c != nil && len(c.Reveals) > 0 {
+		fv.e.revealed = map[string]bool{}
+		for _, r := range c.Reveals {
+			fv.e.revealed[r] = true
+		}
 	}
 	return fv
 }
@@ -325,6 +333,43 @@ func (fv *FuncVC) bindLocals(env *Env, at *ssa.BasicBlock, st *State) {
 		for _, v := range ok {
 			if _, isConst := v.(*ssa.Const); !isConst {
 				nz = append(nz, v)
+			}
+		}
+		if len(nz) > 1 {
+			// several definitions reach: take the closest dominating one (the one all others dominate)
+			best := nz[0]
+			ok := true
+			for _, v := range nz[1:] {
+				bi, isI := best.(ssa.Instruction)
+				vi, isV := v.(ssa.Instruction)
+				if !isI {
+					best = v
+					continue
+				}
+				if !isV {
+					continue
+				}
+				switch {
+				case bi.Block() == vi.Block():
+					// later instruction in the same block wins
+					for _, ins := range bi.Block().Instrs {
+						if ins == bi {
+							best = v
+							break
+						}
+						if ins == vi {
+							break
+						}
+					}
+				case bi.Block().Dominates(vi.Block()):
+					best = v
+				case vi.Block().Dominates(bi.Block()):
+				default:
+					ok = false
+				}
+			}
+			if ok {
+				nz = []ssa.Value{best}
 			}
 		}
 		if len(nz) == 1 {
@@ -890,6 +935,24 @@ func (fv *FuncVC) binop(op token.Token, X, Y ssa.Value, rt types.Type, pos token
 				return and(a, b)
 			case token.OR:
 				return or(a, b)
+			}
+		}
+		// shifts by a constant are exact: x >> k = floor(x / 2^k), x << k = x * 2^k (wrapped to the type)
+		if c, ok := Y.(*ssa.Const); ok && c.Value != nil && (op == token.SHR || op == token.SHL) {
+			if k, ok2 := constant.Int64Val(constant.ToInt(c.Value)); ok2 && k >= 0 && k < 63 {
+				p2 := new(big.Int).Lsh(big.NewInt(1), uint(k)).String()
+				if op == token.SHR {
+					return app("div", a, p2)
+				}
+				return fv.wrap(app("*", a, p2), rt)
+			}
+		}
+		// masking with a constant 2^k - 1 is exact for non-negative values: x & (2^k-1) = x mod 2^k
+		if c, ok := Y.(*ssa.Const); ok && c.Value != nil && op == token.AND && isInt(t) {
+			if m, ok2 := constant.Int64Val(constant.ToInt(c.Value)); ok2 && m > 0 && (m&(m+1)) == 0 {
+				if lo, _, okr := intRange(t); okr && lo == "0" {
+					return app("mod", a, fmt.Sprintf("%d", m+1))
+				}
 			}
 		}
 		return fv.e.bitop(op.String(), a, b)
